@@ -50,7 +50,12 @@ def encode_text(text, ws_elements=False, span_at=None, paragraphs=False, empty_p
                 body += esc(c)
             i += 1
         if span_at is not None and len(part) > span_at and "<" not in body[:span_at + 1]:
-            body = esc(part[:span_at]) + '<text:span text:style-name="T1">' + esc(part[span_at:]) + "</text:span>"
+            if ws_elements:
+                # the rest of the paragraph (white space elements included) inside a span, itself nested in a span
+                rest = body[len(esc(part[:span_at])):]
+                body = esc(part[:span_at]) + '<text:span text:style-name="T1"><text:span>' + rest + "</text:span></text:span>"
+            else:
+                body = esc(part[:span_at]) + '<text:span text:style-name="T1">' + esc(part[span_at:]) + "</text:span>"
         out += "<text:p>%s</text:p>" % body
     return out
 
@@ -472,7 +477,9 @@ def native_features():
     try:
         variants = [("plain", {}), ("column-runs", dict(column_runs=True)), ("row-runs", dict(row_runs=True)),
                     ("whitespace-elements", dict(ws_elements=True)), ("span", dict(span_at=1)),
-                    ("paragraphs", dict(paragraphs=True)), ("empty-paragraph", dict(empty_paragraph=True))]
+                    ("paragraphs", dict(paragraphs=True)), ("empty-paragraph", dict(empty_paragraph=True)),
+                    ("whitespace-elements-inside-spans", dict(ws_elements=True, span_at=1)),
+                    ("all-features", dict(ws_elements=True, span_at=2, column_runs=True, empty_paragraph=True))]
         for ti, table in enumerate(FEATURE_TABLES):
             for vname, opts in variants:
                 if vname == "paragraphs" and not any("\n" in c for r in table for c in r):
@@ -488,6 +495,7 @@ def native_features():
                     got = "%s: %s" % (type(e).__name__, e)
                 if got != table:
                     key = {"row-runs": "ods-row-repeat-ignored", "whitespace-elements": "ods-whitespace-elements-lost",
+                           "whitespace-elements-inside-spans": "ods-whitespace-elements-lost",
                            "span": "ods-span-text-lost", "paragraphs": "ods-further-paragraphs-lost"}.get(vname, "ods-" + vname)
                     if vname == "column-runs" and any(c is None for r in (got if isinstance(got, list) else []) for c in r):
                         key = "ods-empty-paragraph"
@@ -495,6 +503,32 @@ def native_features():
                                          args=dict(feature=vname, table=table)))
                 elif len(samples) < 2:
                     samples.append(dict(query="native/feature", feature=vname, table=table))
+        # the same path read again after the document changed (nothing about an earlier read may be remembered)
+        p = os.path.join(d, "changing.ods")
+        for version, table in enumerate(([["v1", "a"]], [["v2", "b"], ["v2", "c"]])):
+            n += 1
+            write_ods(p, encode_document([("s", table)] + ([("extra", [["x"]])] if version == 0 else [])))
+            try:
+                got = list(rowio.ods_rows(p, 1))
+            except Exception as e:  # noqa
+                got = "%s: %s" % (type(e).__name__, e)
+            if got != table:
+                failures.append(dict(key="ods-stale-document", what="document at the same path changed: read %r, expected %r" % (got, table),
+                                     args=dict(version=version)))
+        n += 1
+        try:
+            list(rowio.ods_rows(p, 2))
+            failures.append(dict(key="ods-stale-document", what="sheet 2 of the changed document (which has one sheet) was read", args={}))
+        except errors.DataFormatError:
+            pass
+        with open(p, "w") as f:
+            f.write("not a zip any more")
+        n += 1
+        try:
+            list(rowio.ods_rows(p, 1))
+            failures.append(dict(key="ods-stale-document", what="a path whose file became a non-zip was still read", args={}))
+        except errors.DataFormatError:
+            pass
         # error cases on real files
         for name, maker in (("not-a-zip", lambda p: open(p, "w").write("hello")),
                             ("no-content-xml", lambda p: zipfile.ZipFile(p, "w").writestr("x", "y")),
